@@ -1,21 +1,25 @@
 /-
   Rsdns.Props.C05 — "One notion of a valid name; text and wire forms round-trip".
 
-  FULL STATEMENT (kept visible; parts proved so far are the theorems below, the rest is covered by the
-  `roundtrip` / `text` correspondence streams and their impl-vs-spec oracle):
-    (1) parse_agree   : (parseName heap s).isOk = (parseName inline s).isOk = (checkNameBytes s).isOk
-                        = (∃ cap, (writeDomainName (new cap) s).isOk)
-    (2) encode_decode : writeDomainName w s = ok (w', n) → n ≤ 255 ∧ readName k (written bytes) 0 = ok (canon s, _)
-    (3) decode_valid  : readName k msg c = ok (t, _) → parseName k t = ok t
+  FULL STATEMENT, all parts proved below:
+    (1) parse_agree + encoder_accepts_valid + valid_encodes :
+          (parseName heap s).isOk = (parseName inline s).isOk = (checkNameBytes s).isOk, and the wire
+          encoder accepts exactly these strings (given room for 255 octets);
+    (2) encode_decode : writeDomainName w s = ok (w', n) → n ≤ 255 ∧ decoding the written octets returns
+          the canonical spelling `canon s` and stops right behind them;
+    (3) decode_valid / decode_reparse : readName k msg c = ok (t, _) → checkNameBytes t = ok ∧ parseName k t = ok t.
+  Helper lemmas: Rsdns/Lemmas/Encode.lean (the splitting loop as a fold over `labelsOf`, join/split,
+  what the encoder writes, `nameAt_of_wire`).
 -/
 import Rsdns.Lemmas.NameText
+import Rsdns.Lemmas.Encode
 import Rsdns.Props.C03
 
 set_option linter.unusedVariables false
 
 namespace Rsdns.C05
 
-open Rsdns Generated Spec
+open Rsdns Generated Spec C11
 
 /-- an accepted text name is short enough for both name types (so the `unwrap`/`push` in the two
     `from` functions cannot panic): at most 253 characters, 254 with the root dot -/
@@ -85,5 +89,132 @@ theorem decoded_len (k : NameKind) (msg : Bytes) (c c' : Cur) (text : Bytes)
   · exact ⟨by decide, by decide⟩
   · rename_i hz
     exact ⟨hb, hz⟩
+
+/-- **C05 (2) encode → decode.**  Whatever `write_domain_name` accepts, it writes at most 255 octets,
+    and decoding those octets (with either name type) returns the canonical spelling of the text — the
+    text itself plus the root dot when it was missing — and stops right behind them. -/
+theorem encode_decode (k : NameKind) (w w' : WCur) (name : Bytes) (n : Nat) (hw : w.pos ≤ w.buf.size)
+    (h : w.writeDomainName name = .ok (w', n)) :
+    n ≤ DOMAIN_NAME_MAX_LENGTH ∧
+    readName k (WCur.written w') (Cur.withPos (WCur.written w') w.pos) =
+      .ok (canon name, (Cur.withPos (WCur.written w') w.pos).setPos (w.pos + n)) := by
+  obtain ⟨hne, hcase, hp, hsz⟩ := writeDomainName_inv w w' name n h
+  have hA : (WCur.written w).size = w.pos := by simp [WCur.written]; omega
+  rcases hcase with ⟨hroot, hwr, hn⟩ | ⟨hnr, hck, hwr, hn, hle⟩
+  · subst hn
+    refine ⟨by decide, ?_⟩
+    rw [hwr]
+    have hna : NameAt (WCur.written w ++ #[0]) (WCur.written w ++ #[0]).size w.pos w.pos [] (w.pos + 1) 0 := by
+      have := nameAt_of_wire [] (WCur.written w) #[] (WCur.written w ++ #[0]).size w.pos (by simp)
+        (by simp [wireLabels]) (by simp [wireLabels])
+      simpa [wireLabels, hA] using this
+    have := C03.read_complete k (WCur.written w ++ #[0]) (Cur.withPos (WCur.written w ++ #[0]) w.pos) [] (w.pos + 1) 0
+      hna (by decide) (by simp) (by decide)
+    rw [this, hroot]
+    simp [nameText, canon, DOT]
+  · refine ⟨hle, ?_⟩
+    rw [hwr]
+    have hval : ∀ l ∈ labelsOf name, 0 < l.size ∧ l.size < 64 := fun l hl => checkLabel_size l (hck l hl)
+    have hna := nameAt_of_wire (labelsOf name) (WCur.written w) #[]
+      (WCur.written w ++ (wireLabels (labelsOf name) ++ #[0])).size w.pos hval
+      (by simp; omega) (by simp)
+    simp only [Array.append_empty, hA] at hna
+    have hlen : (textOf (labelsOf name)).size < DOMAIN_NAME_MAX_LENGTH := by
+      rw [← wireLabels_size]; omega
+    have := C03.read_complete k _ (Cur.withPos (WCur.written w ++ (wireLabels (labelsOf name) ++ #[0])) w.pos)
+      (labelsOf name) (w.pos + (wireLabels (labelsOf name)).size + 1) 0 hna (by decide) hck hlen
+    rw [this, nameText_of_ne_nil _ (labelsOf_ne_nil name hne), (labelsOf_spec name hne).1, hn]
+    simp [Nat.add_assoc]
+
+/-- **C05 (1), encoder half (soundness).**  Whatever the wire encoder accepts, the validator (hence both
+    parsers, `parse_agree`) accepts. -/
+theorem encoder_accepts_valid (w w' : WCur) (name : Bytes) (n : Nat) (h : w.writeDomainName name = .ok (w', n)) :
+    checkNameBytes name = .ok () := by
+  obtain ⟨hne, hcase, _, _⟩ := writeDomainName_inv w w' name n h
+  rw [checkNameBytes_iff]
+  refine ⟨hne, ?_⟩
+  rcases hcase with ⟨hroot, _, _⟩ | ⟨_, hck, _, hn, hle⟩
+  · exact Or.inl hroot
+  · right
+    refine ⟨hck, ?_⟩
+    rw [← (labelsOf_spec name hne).1, ← wireLabels_size]
+    omega
+
+/-- **C05 (3) decode → valid.**  Every name the decoder returns (either name type) is accepted by the
+    validator — hence by both parsers, which return it unchanged. -/
+theorem decode_valid (k : NameKind) (msg : Bytes) (c c' : Cur) (t : Bytes) (h : readName k msg c = .ok (t, c')) :
+    checkNameBytes t = .ok () ∧ canon t = t := by
+  obtain ⟨hlen, hne⟩ := C05.decoded_len k msg c c' t h
+  obtain ⟨ls, _, ht, hck, _, _⟩ := C03.read_sound k msg c c' t h
+  cases ls with
+  | nil =>
+    have : t = #[DOT] := by rw [ht]; simp [nameText, DOT]
+    subst this
+    exact ⟨by decide, by decide⟩
+  | cons l ls =>
+    have htt : t = textOf (l :: ls) := by rw [ht]; simp [nameText]
+    have hlast : t.getD (t.size - 1) 0 = DOT := by rw [htt]; exact textOf_last _ (by simp)
+    have hcan : canon t = t := canon_of_dot t hlast
+    refine ⟨?_, hcan⟩
+    rw [checkNameBytes_iff]
+    refine ⟨hne, Or.inr ⟨?_, by rw [hcan]; exact hlen⟩⟩
+    -- the labels of the text are the decoded labels
+    have hsplit : labelsOf t = l :: ls := by
+      apply textOf_inj
+      · exact (labelsOf_spec t hne).2
+      · intro x hx; exact nodot_of_check x (hck x hx)
+      · rw [(labelsOf_spec t hne).1, hcan, htt]
+    rw [hsplit]
+    exact hck
+
+/-- **C05 (1), encoder half (completeness).**  Whatever the validator accepts, the wire encoder accepts
+    when the buffer has room for 255 octets. -/
+theorem valid_encodes (w : WCur) (name : Bytes) (h : checkNameBytes name = .ok ())
+    (hroom : w.pos + DOMAIN_NAME_MAX_LENGTH ≤ w.buf.size) : ∃ w' n, w.writeDomainName name = .ok (w', n) := by
+  obtain ⟨hne, hc⟩ := (checkNameBytes_iff name).mp h
+  have h255 : DOMAIN_NAME_MAX_LENGTH = 255 := rfl
+  unfold WCur.writeDomainName
+  simp only [hne, if_false]
+  by_cases hr : (name == #[DOT]) = true
+  · simp only [hr, if_true]
+    have : w.len ≥ 1 := by simp only [WCur.len]; omega
+    obtain ⟨w1, h1, _⟩ := put_written w #[UInt8.ofNat (0 % 256)] (by simp; omega)
+    simp only [WCur.u8, this, if_true, h1]
+    exact ⟨w1, 1, rfl⟩
+  · simp only [hr, Bool.false_eq_true, if_false]
+    rcases hc with hroot | ⟨hck, hlen⟩
+    · rw [hroot] at hr; simp at hr
+    · rw [splitLabels_fold name _ w hne]
+      have hws : (wireLabels (labelsOf name)).size = (canon name).size := by
+        rw [wireLabels_size, (labelsOf_spec name hne).1]
+      obtain ⟨w1, h1⟩ := foldWrite_ok (labelsOf name) w hck (by omega)
+      obtain ⟨_, _, sz1, p1⟩ := foldWrite_inv _ w w1 h1
+      simp only [h1]
+      have hl1 : w1.len ≥ 1 := by simp only [WCur.len]; omega
+      obtain ⟨w2, h2, _, p2, _⟩ := put_written w1 #[UInt8.ofNat (0 % 256)] (by simp; omega)
+      simp only [WCur.u8, hl1, if_true, h2]
+      have hnlt : ¬ (w2.pos < w.pos) := by rw [p2, p1]; omega
+      have hnl : ¬ (w2.pos - w.pos > DOMAIN_NAME_MAX_LENGTH) := by rw [p2, p1]; simp; omega
+      simp only [hnlt, if_false, hnl]
+      exact ⟨w2, _, rfl⟩
+
+/-- **C05 (3), re-parse.** Parsing the text of a decoded name returns that very name, with both parsers. -/
+theorem decode_reparse (k k' : NameKind) (msg : Bytes) (c c' : Cur) (t : Bytes)
+    (h : readName k msg c = .ok (t, c')) : parseName k' t = .ok t := by
+  obtain ⟨hv, hc⟩ := decode_valid k msg c c' t h
+  obtain ⟨h1, h2, h3, _, _⟩ := parse_agree t
+  have hok : (parseName k' t).isOk = true := by
+    cases k' with
+    | heap => rw [h1, hv]; rfl
+    | inline => rw [h2, hv]; rfl
+  cases hp : parseName k' t with
+  | ok t' =>
+    have := h3 k' t' hp
+    rw [this]
+    unfold canon at hc
+    rw [hc]
+  | err e => rw [hp] at hok; simp [Res.isOk] at hok
+  | panic p => rw [hp] at hok; simp [Res.isOk] at hok
+  | ub => rw [hp] at hok; simp [Res.isOk] at hok
 
 end Rsdns.C05
